@@ -1,5 +1,5 @@
 CONSTANTS
-  AVals = {0, 1, 2, 7, 8, 100, 127, 128, 129, 255}
+  AVals = {0, 1, 7, 8, 127, 128, 129, 255}
 INIT Init
 NEXT Next
 INVARIANT OpsAgree AliasLaws PoisonLaws RamLaws BlockRun
